@@ -83,6 +83,13 @@ def uf_axiom_instances(terms):
                 out.append(z3.Implies(a >= 0, z3.And(t >= 0, t * t == a)))
             if t.decl().name() == "fact" and t.num_args() == 1:
                 out.append(z3.Implies(t.arg(0) >= 0, t >= 1))
+            if t.decl().name() == "gamma" and t.num_args() == 1:
+                out.append(z3.Implies(t.arg(0) > 0, t > 0))
+            if t.decl().name() == "pow" and t.num_args() == 2:
+                out.append(z3.Implies(t.arg(0) > 0, t > 0))
+            if t.decl().name() == "PI" and t.num_args() == 0:
+                from .values import PI_AXIOMS
+                out.extend(PI_AXIOMS)
             stack.extend(t.children())
     return out
 
